@@ -1,6 +1,7 @@
 package main
 
 import (
+	"fmt"
 	"go/ast"
 	"path/filepath"
 	"regexp"
@@ -119,6 +120,21 @@ func genDispatch(c *ctx) string {
 	b.WriteString("def listNotCoerced : Bool := " + lnc + "\n")
 	b.WriteString("def symbolUnchecked : Bool := " + su + "\n")
 	b.WriteString("def symbolBaseEnum : Bool := " + sbe + "\n")
+	b.WriteString("/-- hashes of the functions that form, coerce and hand on argument values (strings and comments stripped) -/\n")
+	b.WriteString("def argSkeleton : List (String × String) := [\n")
+	argFns := []string{"Input.CoerceIn", "List.CoerceIn", "NonNull.CoerceIn", "Root.formArgs", "Root.formReflectArgs", "Root.replaceArgVars", "Root.resolveField", "checkReflectArgs"}
+	for i, name := range argFns {
+		h := "missing"
+		if fd := c.funcs[name]; fd != nil {
+			h = skeleton(c, fd)
+		}
+		sep := ","
+		if i == len(argFns)-1 {
+			sep = ""
+		}
+		b.WriteString(fmt.Sprintf("  (%q, %q)%s\n", name, h, sep))
+	}
+	b.WriteString("]\n")
 	b.WriteString("end Ggql.Gen\n")
 	return b.String()
 }
